@@ -191,6 +191,8 @@ theorem defaults_agree :
 /-! ### Non-vacuity -/
 
 def exI : Interp Nat Nat where
+  lags := 0
+  leads := 0
   check u _ := u
   allFinite _ := true
   close a b := a == b
